@@ -178,6 +178,10 @@ func (c *Config) generateNoncePattern(seed int, unlockAll bool) {
 			minRange := 7
 			n.MinLen = proto.Int32(int32(rng.FixedInt(minRange, fmt.Sprintf("%d:nonce.minLen", seed))) + 6)
 		}
+		// An implicit minLen must not exceed an explicit maxLen.
+		if c.original.Nonce != nil && c.original.Nonce.MaxLen != nil && n.GetMinLen() > c.original.Nonce.GetMaxLen() {
+			n.MinLen = proto.Int32(c.original.Nonce.GetMaxLen())
+		}
 	}
 
 	if c.original.Nonce == nil || c.original.Nonce.MaxLen == nil {
